@@ -16,9 +16,9 @@ TABLE = {
     # comment placements on the statements that hold a character literal (the literal continued around a comment line, a trailing
     # comment on a line continued after the literal): one such statement per program, every placement
     "Perturb_c11s_quick": dict(BASE, PKinds="KCmt", MaxEdits=1, MaxStmts=2, UnitKinds="SubOnly", ConKinds="Empty", SpecKinds="Empty", Contains="FALSE",
-                               SimpleV="StrSplitS", DeclV="StrSplitDecl", MaxRich="<- Unlimited", NameChoices="Set1", EndForms="Set02", DumpMod=6),
-    "Perturb_c11s_thorough": dict(BASE, PKinds="KCmt", MaxEdits=1, MaxStmts=2, UnitKinds="SubOnly", ConKinds="Empty", SpecKinds="Empty", Contains="FALSE",
-                                  SimpleV="StrSplitS", DeclV="StrSplitDecl", MaxRich="<- Unlimited", NameChoices="Set1", EndForms="Set02", DumpMod=1),
+                               SimpleV="StrSplitS", DeclV="StrSplitDecl", MaxRich="<- Unlimited", NameChoices="Set1", EndForms="Set02", DumpMod=3),
+    "Perturb_c11s_thorough": dict(BASE, PKinds="KCmt", MaxEdits=2, MaxStmts=2, UnitKinds="SubOnly", ConKinds="Empty", SpecKinds="Empty", Contains="FALSE",
+                                  SimpleV="StrSplitS", DeclV="StrSplitDecl", MaxRich="<- Unlimited", NameChoices="Set1", EndForms="Set02", DumpMod=3),
     "Perturb_c14_quick": dict(BASE, PKinds="KCpp", MaxEdits=1, DumpMod=16),
     "Perturb_c14_thorough": dict(BASE, PKinds="KCpp", MaxEdits=1, MaxStmts=4),
     "Perturb_c14_sim": dict(SIM, PKinds="KCmtCpp", MaxEdits=5),
@@ -31,6 +31,11 @@ TABLE = {
     "Perturb_c08_thorough": dict(BASE, PKinds="KStruct", MaxEdits=1, ConKinds="NestCons", MaxStmts=4),
     "Perturb_c08_sim": dict(SIM, PKinds="KStructCmt", MaxEdits=3),
     # the construct kinds the first family leaves out (FORALL, ASSOCIATE, CRITICAL, SELECT TYPE, DO CONCURRENT) and TYPE / INTERFACE / ENUM definitions
+    # a surplus / missing parenthesis at every token boundary of every opener / construct-part variant, one construct per program
+    "Perturb_c08p_quick": dict(BASE, MaxStmts=2, MaxDepth=2, MaxRich="= 1", MaxVar=30, UnitKinds="SubOnly", ConKinds="AllCons", SpecKinds="Empty", PKinds="KPar", MaxEdits=1,
+                               NameChoices="Set0", EndForms="Set1", Contains="FALSE", DumpMod=1),
+    "Perturb_c08p_thorough": dict(BASE, MaxStmts=3, MaxDepth=2, MaxRich="= 1", MaxVar=30, UnitKinds="SubOnly", ConKinds="AllCons", SpecKinds="Empty", PKinds="KPar", MaxEdits=1,
+                                  NameChoices="Set01", EndForms="Set02", Contains="FALSE", DumpMod=1),
     "Perturb_c08c_quick": dict(BASE, PKinds="KStruct", MaxEdits=1, ConKinds="NestCons2", SpecKinds="AllSpec", UnitKinds="SubMod", DumpMod=23),
     "Perturb_c08c_thorough": dict(BASE, PKinds="KStruct", MaxEdits=1, ConKinds="NestCons2", SpecKinds="AllSpec", UnitKinds="SubMod", MaxStmts=4),
     "Perturb_c13_quick": dict(BASE, PKinds="KInc", MaxEdits=2, DumpMod=32),
@@ -41,13 +46,17 @@ TABLE = {
     "Perturb_c04_sim": dict(SIM, PKinds="KLayout", MaxEdits=8, MinEdits=4),
     # every catalogue variant (at most one non-default variant per program) continued at every token boundary, in every continuation style
     "Perturb_c04v_exec_quick": dict(BASE, MaxStmts=2, MaxRich="= 1", MaxVar=30, UnitKinds="SubOnly", ConKinds="SweepCons", SpecKinds="Empty", SimpleV="SimpleAll", PKinds="KBrk",
-                                    NameChoices="Set1", EndForms="Set1", Contains="FALSE", RichOnly="TRUE", DumpMod=5),
-    "Perturb_c04v_spec_quick": dict(BASE, MaxStmts=3, MaxRich="= 1", MaxVar=30, UnitKinds="SweepUnits", ConKinds="Empty", SpecKinds="AllSpec", DeclV="DeclAll", UseV="UseAll",
-                                    CompV="CompAll", TbindV="TbindAll", PKinds="KBrk", NameChoices="Set1", EndForms="Set1", Contains="FALSE", RichOnly="TRUE", DumpMod=150),
+                                    NameChoices="Set1", EndForms="Set1", Contains="FALSE", RichOnly="TRUE", DumpMod=23),
+    "Perturb_c04v_decl_quick": dict(BASE, MaxStmts=2, MaxRich="= 1", MaxVar=30, UnitKinds="SweepUnits", ConKinds="Empty", SpecKinds="Empty", DeclV="DeclAll", UseV="UseAll",
+                                    PKinds="KBrk", NameChoices="Set1", EndForms="Set1", Contains="FALSE", RichOnly="TRUE", DumpMod=11),
+    "Perturb_c04v_type_quick": dict(BASE, MaxStmts=3, MaxRich="= 1", MaxVar=30, UnitKinds="ModOnly", ConKinds="Empty", SpecKinds="AllSpec", CompV="CompAll", TbindV="TbindAll",
+                                    PKinds="KBrk", NameChoices="Set1", EndForms="Set1", Contains="FALSE", RichOnly="TRUE", DumpMod=11),
     "Perturb_c04v_exec_thorough": dict(BASE, MaxStmts=2, MaxRich="= 1", MaxVar=30, UnitKinds="SubOnly", ConKinds="SweepCons", SpecKinds="Empty", SimpleV="SimpleAll", PKinds="KBrk",
                                        NameChoices="Set1", EndForms="Set1", Contains="FALSE", RichOnly="TRUE", DumpMod=1),
-    "Perturb_c04v_spec_thorough": dict(BASE, MaxStmts=3, MaxRich="= 1", MaxVar=30, UnitKinds="SweepUnits", ConKinds="Empty", SpecKinds="AllSpec", DeclV="DeclAll", UseV="UseAll",
-                                       CompV="CompAll", TbindV="TbindAll", PKinds="KBrk", NameChoices="Set1", EndForms="Set1", Contains="FALSE", RichOnly="TRUE", DumpMod=6),
+    "Perturb_c04v_decl_thorough": dict(BASE, MaxStmts=2, MaxRich="= 1", MaxVar=30, UnitKinds="SweepUnits", ConKinds="Empty", SpecKinds="Empty", DeclV="DeclAll", UseV="UseAll",
+                                       PKinds="KBrk", NameChoices="Set1", EndForms="Set1", Contains="FALSE", RichOnly="TRUE", DumpMod=1),
+    "Perturb_c04v_type_thorough": dict(BASE, MaxStmts=3, MaxRich="= 1", MaxVar=30, UnitKinds="ModOnly", ConKinds="Empty", SpecKinds="AllSpec", CompV="CompAll", TbindV="TbindAll",
+                                       PKinds="KBrk", NameChoices="Set1", EndForms="Set1", Contains="FALSE", RichOnly="TRUE", DumpMod=2),
     # C06: every catalogue variant (sweep: at most one non-default variant per program) with every single mutation of that statement
     "Perturb_c06_exec_quick": dict(BASE, MaxRich="= 1", MaxVar=30, UnitKinds="SubOnly", ConKinds="SweepCons", SpecKinds="Empty", SimpleV="SimpleAll", PKinds="KMut",
                                    NameChoices="Set1", EndForms="Set1", Contains="FALSE", RichOnly="TRUE", DumpMod=157),
